@@ -164,10 +164,17 @@ Definition plane_fraunhofer (B : Z) (g : Z -> Z -> S) (ar ac : Qc) (U V : Qc) : 
 (* Wavefront.insert(out, weight): every reduced field adds weight * |field|^2 into the caller's array *)
 Definition winsert (w : wavefront) (out : arr S) (weight : S) : result (arr S) := accumulate (wdata w) out weight.
 
+(* specification vocabulary: the field with every sample multiplied by the constant c (amplitude scaling) *)
+Definition fscale (c : S) (f : field S) : field S :=
+  mkField (match fd f with
+           | D2 a => D2 (mkArr (nr a) (nc a) (fun x y => (c * get a x y)%K))
+           | D0 v => D0 (c * v)%K
+           end) (offr f) (offc f) (ftilt f).
+
 (* Field.shift for a field without tilt elements *)
 Definition no_shift (f : field S) : Qc * Qc := (0%Qc, 0%Qc).
 End Propagate.
 
 Arguments mkWf {S}. Arguments wwl {S}. Arguments wps {S}. Arguments wfocal {S}. Arguments wshape {S}.
 Arguments wptype {S}. Arguments wdata {S}. Arguments prop_field {S}. Arguments prop_fields {S}.
-Arguments propagate_dft {S}. Arguments plane_fraunhofer {S}. Arguments wfield {S}. Arguments wintensity {S}. Arguments winsert {S}. Arguments no_shift {S}.
+Arguments propagate_dft {S}. Arguments plane_fraunhofer {S}. Arguments wfield {S}. Arguments wintensity {S}. Arguments winsert {S}. Arguments fscale {S}. Arguments no_shift {S}.
